@@ -32,12 +32,14 @@ fn carry_level(prev_min: i64, res: i64) -> &'static str {
 
 fn gen_start_seconds(rng: &mut Rng) -> i64 {
     // seconds since 0001-01-01T00:00:00
-    let a = match rng.below(7) {
+    let a = match rng.below(8) {
         0 => *rng.pick(&[1i64, 2, 4, 100, 400, 1900, 2000, 2024, 2100, 9996, 9999]),
         // the 8-year gaps between leap days around century years that are not leap years (and the 4-year
         // ones around those that are): where a "next leap day" search has to look furthest
         1 => *rng.pick(&[1896i64, 2096, 2196, 2296, 1996, 2396, 96, 396, 9896]) + rng.range_i64(0, 8),
         2 => rng.range_i64(1, 9998),
+        // before year 1 (astronomical years ≤ 0), dense at the era boundary: December of year −1 carries into year 1
+        3 => *rng.pick(&[0i64, 0, 0, -1, -3, -4, -99, -100, -400, -9998]) - if rng.chance(1, 3) { rng.range_i64(0, 3000) } else { 0 },
         _ => rng.range_i64(1970, 2100),
     };
     let day = match rng.below(6) {
@@ -50,7 +52,7 @@ fn gen_start_seconds(rng: &mut Rng) -> i64 {
         3 => cal::days_from_civil(a, rng.below(12) as u32 + 1, 1),
         _ => cal::days_from_civil(a, 1, 1) + rng.below(365) as i64,
     }
-    .clamp(0, cal::days_from_civil(9999, 6, 1));
+    .clamp(cal::days_from_civil(-9999, 1, 1), cal::days_from_civil(9999, 6, 1));
     let tod = match rng.below(5) {
         0 => *rng.pick(&[0i64, 1, 59, 60, 61, 86_399, 86_340, 3_599, 3_600, 43_200]),
         1 => rng.below(1440) as i64 * 60 + *rng.pick(&[0i64, 1, 59]),
